@@ -72,20 +72,32 @@ impl FrameAckQueue {
                         last_entry.nonce ^= nonce;
                     }
                 } else {
-                    self.entries.push_back(frame::AckGroup {
+                    self.push_group(frame::AckGroup {
                         base_id: frame_id,
                         bitfield: 0x00000001,
                         nonce: nonce,
                     });
                 }
             } else {
-                self.entries.push_back(frame::AckGroup {
+                self.push_group(frame::AckGroup {
                     base_id: frame_id,
                     bitfield: 0x00000001,
                     nonce: nonce,
                 });
             }
         }
+    }
+
+    fn push_group(&mut self, group: frame::AckGroup) {
+        // A well-behaved sender never has more than one frame window of frames in flight, so it
+        // has no use for older groups. Without this bound, a peer which spaces its frame IDs more
+        // than 32 apart grows the queue by one entry per frame for as long as acks cannot be
+        // flushed.
+        if self.entries.len() >= self.receive_window.size as usize {
+            self.entries.pop_front();
+        }
+
+        self.entries.push_back(group);
     }
 
     pub fn pop(&mut self) -> Option<frame::AckGroup> {
